@@ -743,7 +743,18 @@ pub fn run(ctx: &Ctx) -> (Stats, Spec) {
     let parts = super::common::with_stderr_gagged(|| util::par_jobs(16, |job| api_soup_job(ctx, job, seqs, slen)));
     st.merge(crate::report::merge_all(parts));
     let wide_iters = ctx.tier.pick(400u64, 8_000u64);
-    let parts = util::par_jobs(16, |job| super::wide::wide_job(ctx, "C02", job, wide_iters));
+    let parts = util::par_jobs(16, |job| {
+        let mut s = super::wide::wide_job(ctx, "C02", job, wide_iters);
+        // one environment in which kept functions meet another operation exactly 65 536 (256)
+        // operations after the last one (see c13.rs::periodic_revisit_job)
+        if job == 0 {
+            s.merge(super::c13::periodic_revisit_job(ctx, "C02", 65_536, 3));
+        }
+        if job == 1 {
+            s.merge(super::c13::periodic_revisit_job(ctx, "C02", 256, 30));
+        }
+        s
+    });
     st.merge(crate::report::merge_all(parts));
     // all 256 functions over 3 variables, both families
     let parts = util::par_jobs(2 * 8, |job| exhaustive_job(3, job / 8, job % 8, 8, 1));
@@ -783,6 +794,13 @@ pub fn run(ctx: &Ctx) -> (Stats, Spec) {
 pub fn replay(_ctx: &Ctx, _monitor: &str, case: &Value, st: &mut Stats) {
     if case.get("kind").and_then(|k| k.as_str()) == Some("wide") {
         super::wide::replay_wide(_ctx, "C02", case, st);
+        return;
+    }
+    if case.get("kind").and_then(|k| k.as_str()) == Some("periodic") {
+        let g = |k: &str| case.get(k).and_then(|j| j.as_u64()).unwrap_or(0);
+        let mut c2 = _ctx.clone();
+        c2.seed = g("seed");
+        st.merge(super::c13::periodic_revisit_job(&c2, "C02", g("period").max(2) as usize, g("rounds").max(2) as usize));
         return;
     }
     if case.get("kind").and_then(|k| k.as_str()) == Some("api-soup") {
